@@ -28,19 +28,22 @@ add("C19", "exploration",
 
 add("C20", "fault_enumeration",
     "store mutation (prune whole log / prune prefix / delete one operation / append / prune every "
-    "announced log the peer lacks, through the real store API) injected immediately before every "
+    "announced log the peer lacks / append-then-prune so that the announced range is empty but the "
+    "log is not, through the real store API) injected immediately before every "
     "LogStore call a fault-free dry run reaches, on the sending side, the receiving side and both; "
     "grammar monitor `have (done | pre_sync operation* done)` on every message handed to each "
-    "sink; second stage with the real TopicLogSync + live mode on top",
+    "sink, judged at the pair's final state (both returned / stalled for good / a side loops without "
+    "awaiting): every side that did not fail must have sent exactly one done; second stage with the real TopicLogSync + live mode on top",
     "For every replica pair the dry run fixes the list of store calls of each side; every index in "
-    "that list is then a fault point, for each of five mutation kinds and three side choices "
+    "that list is then a fault point, for each of six mutation kinds and three side choices "
     "(thousands of faulted sessions in quick). The monitor reads the actual sink traffic; the "
     "TopicLogSync stage additionally checks that no Sync(_) follows a side's Sync(Done) and that no "
     "live phase fails on a left-over sync message. Every fault point reached is injected once per "
     "kind; mutations between two *sub-steps* of one store call are not reachable through the trait.",
     "The mutation is atomic and placed at store-call boundaries of the session (the only points "
-    "where the session yields to the store). Faulted sessions that stall or return an error are "
-    "recorded, not judged (C20 is about the message grammar). Stores are restored from the model "
+    "where the session yields to the store). Faulted sessions that stall, spin or return an error are "
+    "judged only for the message grammar (a side that never sent done at the final state = "
+    "C20:no-done-sent); termination as such is C21's subject. Stores are restored from the model "
     "after each faulted run.",
     quick=[st("vh-sync")],
     thorough=[st("vh-sync")],
@@ -51,7 +54,9 @@ add("C21", "exploration",
     "per-side state {idle, blocked_in_send, blocked_in_recv} and buffer occupancy; sessions are "
     "polled by hand, so a stall is decided on state (exact quiescence with the in-memory LogStore; "
     "two observations 100 ms apart with unchanged counters and no wake-up with SQLite stores); a "
-    "CPU-time monitor catches polls that never yield",
+    "counting tracing subscriber unwinds a poll that re-enters spans 200 000 times without one "
+    "transport/store call (busy select! loop), with a CPU-time monitor as backstop; extra stage: one "
+    "of two announced logs is emptied by a concurrent prune before every store-call index",
     "Transports: futures-mpsc with capacities 0,1,2,8,64,512 and unbounded, tokio-mpsc with "
     "1,2,8,64,512; operations per side {0,1,cap,cap+2,10*cap} on either side; body sizes 0 B..64 KiB; "
     "1-3 authors per side; poll order drawn from the seed. Liveness is restated as bounded "
@@ -59,7 +64,10 @@ add("C21", "exploration",
     "states. The unbounded 'eventually' of the statement is not claimed beyond that.",
     "Deadlock signature = both sides blocked_in_send (their current send cannot return) with both "
     "directions at the measured capacity; any other stalled shape, a session error between honest "
-    "peers, or a busy poll is reported under its own signature. A wall-clock watchdog firing "
+    "peers, or a session looping without awaiting (C21:spin:session-loops-without-awaiting) is "
+    "reported under its own signature. The concurrent-prune stage (A announces two logs, one is "
+    "emptied before A's k-th store call, k=0..6, B holds 0 or 3 operations, four transports) must "
+    "terminate as well. A wall-clock watchdog firing "
     "without such a state is inconclusive. The tokio::io::duplex + p2panda_net::codec byte-stream "
     "variant is served by vh-net, not here.",
     quick=[st("vh-sync")],
